@@ -1,12 +1,16 @@
 /-
-  Driver for C13: a network of EVSEs built by `register_evse` calls, the advertised description after
-  every registration (network cache + Interface accessors), a sequence of operations addressed to
-  the stations, the observable state after each.
-  request : {"kind":…,                       -- the EVSE registered under "S" when "net" is absent
-             "net": {"regs":[{"id","kind"}…], -- optional: the `register_evse` calls, in order
-                     "queries":[id…]},        -- ids asked through the Interface after every call
+  Driver for C13: a network of EVSEs built by `register_evse` calls with save / resume steps
+  (`from_json(to_json())`) anywhere between them, the advertised description after every entry of that
+  history (stored cache + Interface accessors), a sequence of operations addressed to the stations —
+  again with save / resume steps between them — and the observable state after each.
+  request : {"kind":…,                       -- the EVSE registered under the primary id when "net" is absent
+             "primary": id,                   -- optional, default "S": the station an op without "at" goes to
+             "net": {"hist":[{"id","kind"} | {"restore":true} …],   -- optional: the history, in order
+                             (legacy: "regs":[{"id","kind"}…], registrations only)
+                     "queries":[id…]},        -- ids asked through the Interface after every entry
              "ops":[{"op":"set_pilot","p","V","T","nu"} | {"op":"plugin","ev":…} | {"op":"unplug"} |
-                    {"op":"valid","p","atol"}]}   -- each with an optional "at": station id (default "S")
+                    {"op":"valid","p","atol"}    -- each with an optional "at": station id
+                    | {"op":"restore"}]}         -- save / resume of the whole network between uses
 -/
 import AcnModel.WireModels
 import AcnModel.EvseNet
@@ -47,8 +51,9 @@ def stepOp (s : Evse Float) (o : Json) : Except String (Evse Float × Json) := d
   else throw s!"unknown op {op}"
 
 /-- apply an operation to the station it is addressed to; the other stations are not touched -/
-def stepAt (ss : List (Evse Float)) (o : Json) : Except String (List (Evse Float) × Json) := do
-  let sid := (← getOpt o "at" (fun v => v.getStr?)).getD "S"
+def stepAt (primary : String) (ss : List (Evse Float)) (o : Json) :
+    Except String (List (Evse Float) × Json) := do
+  let sid := (← getOpt o "at" (fun v => v.getStr?)).getD primary
   match ss.findIdx? (fun s => s.station == sid) with
   | none => throw s!"operation addressed to unregistered station {sid}"
   | some i =>
@@ -62,58 +67,74 @@ def jBounds (l : List (Bound Float)) : Json := jFs (l.map fOfBound)
 
 def jErr (e : EvseNet.Err) : Json := Json.mkObj [("err", jS (EvseNet.errName e))]
 
-/-- the three Interface accessors for one id -/
-def jQuery (n : Net Float) (sid : String) : Json :=
+/-- the three Interface accessors for one id, on a network with a STORED cache -/
+def jQuery (n : CNet Float) (sid : String) : Json :=
   Json.mkObj [
     ("id", jS sid),
-    ("allowable", match ifaceAllowable n sid with
+    ("allowable", match ifaceAllowableC n sid with
       | .ok (c, a) => Json.mkObj [("err", Json.null), ("cont", jB c), ("vals", jBounds a)]
       | .error e => jErr e),
-    ("max", match ifaceMax n sid with
+    ("max", match ifaceMaxC n sid with
       | .ok m => Json.mkObj [("err", Json.null), ("v", jF (fOfBound m))]
       | .error e => jErr e),
-    ("min", match ifaceMin n sid with
+    ("min", match ifaceMinC n sid with
       | .ok m => Json.mkObj [("err", Json.null), ("v", jF m)]
       | .error e => jErr e)]
 
-/-- the network cache (`_update_info_store`) and the Interface answers for the queried ids -/
-def jSnap (n : Net Float) (queries : List String) : Json :=
-  let info := infoStore n
+/-- the stored cache (`_update_info_store` / restored verbatim by `_from_dict`), aligned with the keys of
+    `_EVSEs`, and the Interface answers for the queried ids -/
+def jSnap (n : CNet Float) (queries : List String) : Json :=
   Json.mkObj [
-    ("ids", jList jS info.ids),
-    ("maxs", jBounds info.maxs), ("mins", jFs info.mins),
-    ("allow", jList jBounds info.allow), ("cont", jList jB info.cont),
-    ("infra_ok", jB (infraOk n)),
+    ("ids", jList jS (n.net.stations.map (·.id))),
+    ("maxs", jBounds n.cache.maxs), ("mins", jFs n.cache.mins),
+    ("allow", jList jBounds n.cache.allow), ("cont", jList jB n.cache.cont),
+    ("infra_ok", jB (infraOkC n)),
     ("iface", jList (jQuery n) queries)]
 
 def parseStation (j : Json) : Except String (Station Float) := do
   pure { id := ← getStr j "id", kind := ← parseKind (← j.getObjVal? "kind") }
 
+/-- an entry of the history before the first use: a `register_evse` call or `{"restore": true}` -/
+def parseNetEv (j : Json) : Except String (NetEv Float) :=
+  match j.getObjVal? "restore" with
+  | .ok _ => pure .restore
+  | .error _ => do pure (.reg (← parseStation j))
+
 def handle (j : Json) : Except String Json := do
   let kind ← parseKind (← j.getObjVal? "kind")
+  let primary := (← getOpt j "primary" (fun v => v.getStr?)).getD "S"
   let ops ← getArr j "ops"
-  let (regs, queries) ← match j.getObjVal? "net" with
+  let (hist, queries) ← match j.getObjVal? "net" with
     | .ok nj => do
-      let rs ← (← getArr nj "regs").mapM parseStation
+      let hs ← match nj.getObjVal? "hist" with
+        | .ok _ => (← getArr nj "hist").mapM parseNetEv
+        | .error _ => do pure ((← (← getArr nj "regs").mapM parseStation).map NetEv.reg)
       let qs ← (← getArr nj "queries").mapM (fun v => v.getStr?)
-      pure (rs, qs)
-    | .error _ => pure ([({ id := "S", kind } : Station Float)], ["S"])
-  -- the description after each `register_evse` call
-  let snaps := (List.range regs.length).map fun k => jSnap (Net.run (regs.take (k + 1))) queries
-  let net := Net.run regs
+      pure (hs, qs)
+    | .error _ => pure ([NetEv.reg ({ id := primary, kind } : Station Float)], [primary])
+  -- the description after each entry of the history (`register_evse` call or save / resume)
+  let snaps := (List.range hist.length).map fun k => jSnap (CNet.run (hist.take (k + 1))) queries
+  let mut net := CNet.run hist
   let info := Json.mkObj [
     ("max", jF (fOfBound (maxRate kind))), ("min", jF (minRate kind)),
     ("cont", jB (isContinuous kind)),
     ("allowable", jFs ((allowable kind).map fOfBound))]
   let mut ss : List (Evse Float) :=
-    net.stations.map fun st => { station := st.id, kind := st.kind, pilot := 0, ev := none }
+    net.net.stations.map fun st => { station := st.id, kind := st.kind, pilot := 0, ev := none }
   let mut outs : Array Json := #[]
   for o in ops do
-    let (ss', r) ← stepAt ss o
-    ss := ss'
-    outs := outs.push r
+    if (← getStr o "op") == "restore" then
+      -- save / resume between uses: the containers go through the file, the stations keep their state
+      net := net.restore
+      let states := ss.map fun s => Json.mkObj (("id", jS s.station) :: jState s)
+      outs := outs.push (Json.mkObj [("restore", jB true), ("snap", jSnap net queries),
+                                     ("states", Json.arr states.toArray)])
+    else
+      let (ss', r) ← stepAt primary ss o
+      ss := ss'
+      outs := outs.push r
   let final := ss.map fun s => Json.mkObj (("id", jS s.station) :: jState s)
   pure (Json.mkObj [("info", info), ("steps", Json.arr outs), ("snaps", Json.arr snaps.toArray),
-                    ("final", Json.arr final.toArray)])
+                    ("last", jSnap net queries), ("final", Json.arr final.toArray)])
 
 def main : IO Unit := runDriver handle
